@@ -216,7 +216,7 @@ Section Rigid.
     unfold translate.
     rewrite (sumn_ext n _ (fun i => X i a * X i b + t b * X i a + t a * X i b + t a * t b))
       by (intros; ring).
-    rewrite !sumn_add, !sumn_mul_l, sumn_const. reflexivity.
+    rewrite !sumn_add, sumn_const, !sumn_mul_l. reflexivity.
   Qed.
 
   Theorem cov_full_translate n t X a b :
@@ -287,12 +287,13 @@ Section Rigid.
     2:{ intros r _. rewrite <- sumn_mul_l, <- !sumn_add. apply sumn_ext. intros c _.
         unfold two. ring. }
     rewrite !sumn_add.
-    rewrite (sumn_zero' n (fun r => _ * sumn n (fun c => W r c)))
-      by (intros r Hr'; rewrite Hr by assumption; ring).
-    rewrite sumn_swap.
-    rewrite (sumn_zero' n (fun c => sumn n (fun r => W r c * (t a * X c b + t b * X c a)))).
-    - ring.
-    - intros c Hc'. rewrite sumn_mul_r. rewrite Hc by assumption. ring.
+    assert (E1 : sumn n (fun r => (t b * X r a + t a * X r b + two * (t a * t b))
+                                  * sumn n (fun c => W r c)) = 0).
+    { apply sumn_zero'. intros r Hr'. rewrite Hr by assumption. ring. }
+    assert (E2 : sumn n (fun r => sumn n (fun c => W r c * (t a * X c b + t b * X c a))) = 0).
+    { rewrite sumn_swap. apply sumn_zero'. intros c Hc'. rewrite sumn_mul_r.
+      rewrite Hc by assumption. ring. }
+    rewrite E1, E2. ring.
   Qed.
 
   (* ================================================================== *)
